@@ -179,8 +179,47 @@ def check_format_number(path):
         raise TranslationError(f"{path}:{fn[0].lineno}: _format_number has a shape the printer model does not cover: {src!r}")
 
 
+def check_numba_shapes(path):
+    """numba/formatter.py: the handlers whose output shape PyFmt.fmtPy models must have exactly these forms."""
+    tree = ast.parse(open(path).read())
+    fmt = [n for n in tree.body if isinstance(n, ast.ClassDef) and n.name == "Formatter"][0]
+    src = {}
+    for fn in fmt.body:
+        if not isinstance(fn, ast.FunctionDef) or fn.name != "_":
+            continue
+        types = set()
+        for d in fn.decorator_list:
+            if isinstance(d, ast.Call) and d.args and isinstance(d.args[0], ast.Attribute):
+                types.add(d.args[0].attr)
+        for a in fn.args.args[1:2]:
+            for sub in ast.walk(a.annotation) if a.annotation is not None else []:
+                if isinstance(sub, ast.Attribute) and isinstance(sub.value, ast.Name) and sub.value.id == "L":
+                    types.add(sub.attr)
+        body = "\n".join(ast.unparse(st) for st in fn.body if not (isinstance(st, ast.Expr) and isinstance(st.value, ast.Constant)))
+        for t in types:
+            src[t] = body
+    need = {
+        "Not": ["if isinstance(oper, L.Not):\n    return f'(not ({arg}))'", "return f'{oper.op}({arg})'", "return f'{oper.op}{arg}'"],
+        "Conditional": ["return f'({t} if {c} else {f})'"],
+        "And": ["opstr = {'||': 'or', '&&': 'and'}[oper.op]", "return f'{lhs} {opstr} {rhs}'"],
+        "ArrayAccess": ["idx = ', '.join((self(ix) for ix in arr.indices))", "return f'{array}[{idx}]'"],
+        "NaryOp": ["return f' {oper.op} '.join(args)"],
+        "BinOp": ["return f'{lhs} {oper.op} {rhs}'"],
+        "LiteralFloat": ["return f'{val.value}'"],
+        "LiteralInt": ["return f'{val.value}'"],
+        "Symbol": ["return f'{s.name}'"],
+    }
+    for cls, frags in need.items():
+        if cls not in src:
+            raise TranslationError(f"{path}: no handler for {cls}")
+        for fr in frags:
+            if fr not in src[cls]:
+                raise TranslationError(f"{path}: handler for {cls} has a shape the Python printer model does not cover (expected {fr!r})")
+
+
 def generate():
     repo = common.REPO
+    check_numba_shapes(os.path.join(repo, "ffcx/codegeneration/numba/formatter.py"))
     check_format_number(os.path.join(repo, "ffcx/codegeneration/C/formatter.py"))
     table, classes = parse_lnodes(os.path.join(repo, "ffcx/codegeneration/lnodes.py"))
     kinds = {}
